@@ -165,20 +165,38 @@ def make_pool(rng):
                        ("sqrt2", "alg1393/985"), ("sqrt2", "q665857/470832"), ("-sqrt2", "near2n"), ("sqrt3", "near3"),
                        ("sqrt3", "sqrt3b"), ("sec1/3", "alg1/3"), ("sec5/7", "alg5/7"), ("near2", "sqrt2c")])
     pool = [g[0] for g in groups] + [FIXED[pair[0]], FIXED[pair[1]]]
-    # sometimes replace one entry by a random root / a random rational / another fixed number
+    # sometimes replace one entry (not the nearly-equal pair) by a random root / a random rational / another fixed number
     for _ in range(rng.choice([0, 1, 1, 2])):
-        i = rng.randrange(NS)
+        i = rng.randrange(NS - 2)
         k = rng.random()
         pool[i] = random_root(rng) if k < 0.5 else (random_rational(rng) if k < 0.7 else FIXED[rng.choice(sorted(FIXED))])
-    rng.shuffle(pool)
-    return pool
+    perm = list(range(NS))
+    rng.shuffle(perm)
+    pool = [pool[k] for k in perm]
+    return pool, (perm.index(NS - 2), perm.index(NS - 1))
 
 
 # ------------------------------------------------------------------------------------------------ pool polynomials
 # (text, assigned variables used, uses x6)
 
-def make_poly(rng, root_only):
+def make_poly(rng, root_only, pair=None):
     A, B, C = rng.sample(range(NS), 3)
+    if pair is not None and rng.random() < 0.45:
+        # aim at the nearly-equal pair: tiny or zero values force the refinement loops of sgn / evaluate
+        A, B = pair if rng.random() < 0.5 else (pair[1], pair[0])
+        C = rng.choice([k for k in range(NS) if k not in (A, B)])
+    if pair is not None and (A, B) in (pair, (pair[1], pair[0])) and not root_only and rng.random() < 0.6:
+        # difference / quotient-like expressions of the nearly-equal pair: the value is tiny (or exactly 0), so the
+        # interval loops of coefficient_sgn and the root filter of coefficient_evaluate really have to narrow the values
+        t = rng.choice([
+            ("1*x%d^1+-1*x%d^1" % (A, B), [A, B]),
+            ("1*x%d^1+-1*x%d^1" % (A, B), [A, B]),
+            ("1*x%d^2+-1*x%d^2" % (A, B), [A, B]),
+            ("1*x%d^1*x%d^1+-1*x%d^2" % (min(A, B), max(A, B), A), [A, B]),
+            ("1*x%d^1+1*x%d^1" % (A, B), [A, B]),
+            ("1000*x%d^1+-1000*x%d^1+1*x%d^1" % (A, B, C), [A, B, C]),
+        ])
+        return (t[0], t[1], False)
     if root_only:
         t = rng.choice([
             ("1*x6^2+-1*x%d^1" % A, [A]),
@@ -299,15 +317,39 @@ def history(rng, pool, polys, length, maxdeg=16):
 
 
 def make_case(rng, length):
-    pool = make_pool(rng)
-    polys = [make_poly(rng, False), make_poly(rng, False), make_poly(rng, rng.random() < 0.7)]
+    pool, pair = make_pool(rng)
+    polys = [make_poly(rng, False, pair), make_poly(rng, False, pair), make_poly(rng, rng.random() < 0.7, pair)]
     rng.shuffle(polys)
     mode = rng.choice("OCM")
     ops = history(rng, pool, polys, length)
-    return "c09 %s %s %s ; %s" % (mode, " ".join(p[0] for p in pool), " ".join(p[0] for p in polys), " ".join(ops))
+    return "c09 %s:%d %s %s ; %s" % (mode, approx_magnitude(), " ".join(p[0] for p in pool), " ".join(p[0] for p in polys),
+                                     " ".join(ops))
+
+
+_MAG = None
+
+
+def approx_magnitude():
+    """LP_VALUE_APPROX_MIN_MAGNITUDE of the tree under test (lp_value_approx refines a model value permanently down to
+    this size before sgn / evaluate remember its interval); the model checks that nothing stays narrower than that"""
+    global _MAG
+    if _MAG is None:
+        _MAG = -20
+        try:
+            import re, os
+            repo = os.environ.get("VERIF_REPO", "/repo")
+            m = re.search(r"#define\s+LP_VALUE_APPROX_MIN_MAGNITUDE\s+(-?\d+)", open(os.path.join(repo, "src/number/value.c")).read())
+            if m:
+                _MAG = int(m.group(1))
+        except Exception:
+            pass
+    return _MAG
 
 
 def generate(rng, tier):
+    global TIMEOUT
+    # budget of ONE driver process over all remaining cases (a hanging library call is reported as a crash of its case)
+    TIMEOUT = 240 if tier == "quick" else 2400
     n = 70 if tier == "quick" else 600
     cases = []
     for k in range(n):
@@ -328,7 +370,7 @@ def tag(case):
     t = case.split()
     ops = _ops(case)
     kinds = set(o.split(":")[0] for o in ops)
-    return "mode%s:%s" % (t[1] if len(t) > 1 else "?", "poly" if kinds & {"ps", "pe", "pr"} else "num")
+    return "mode%s:%s" % (t[1][0] if len(t) > 1 else "?", "poly" if kinds & {"ps", "pe", "pr"} else "num")
 
 
 def nontrivial(case):
@@ -359,5 +401,59 @@ def extra_coverage(cases, couts, mouts):
             "observations_rechecked": steps * 45, "representations_validated": steps * 12}
 
 
+def _verdict(case):
+    """run both drivers on one case: (c_out or None, model_out or None)"""
+    import vlib
+    clib = vlib.build_clib()
+    cexe = vlib.build_cdriver(HARNESS, clib)
+    mexe = vlib.build_mdriver()
+    couts, crashes, _ = vlib.run_driver(cexe, [], [case], timeout=40)
+    co = couts[0]
+    if co is None:
+        return None, None
+    mouts, _, _ = vlib.run_driver(mexe, ["C09"], [case + " => " + co], timeout=120)
+    return co, mouts[0]
+
+
+def _fails(case):
+    co, mo = _verdict(case)
+    return co is None or mo is None or mo.startswith("CHECK fail")
+
+
+def shrink(case, budget=60):
+    """delta debugging (ddmin) over the operation list of a failing history; the pool stays as it is"""
+    t = case.split()
+    k = t.index(";")
+    head, ops = t[:k + 1], t[k + 1:]
+    trials = 0
+    n = 2
+    while len(ops) >= 2 and trials < budget:
+        chunk = max(1, len(ops) // n)
+        reduced = False
+        for start in range(0, len(ops), chunk):
+            cand = ops[:start] + ops[start + chunk:]
+            if not cand:
+                continue
+            trials += 1
+            if _fails(" ".join(head + cand)):
+                ops, n, reduced = cand, max(n - 1, 2), True
+                break
+            if trials >= budget:
+                break
+        if not reduced:
+            if chunk == 1:
+                break
+            n = min(len(ops), n * 2)
+    return " ".join(head + ops)
+
+
 def explain(case, c_out, m_out):
-    return "model verdict: %s" % (m_out,)
+    text = "model verdict: %s" % (m_out,)
+    try:
+        small = shrink(case)
+        co, mo = _verdict(small)
+        text += " || shrunk history (%d of %d operations): %s || verdict on it: %s" % (
+            len(_ops(small)), len(_ops(case)), small, mo if co is not None else "the C driver crashes / does not return")
+    except Exception as e:   # shrinking is a convenience, never a reason to lose the replay
+        text += " || (shrinking failed: %r)" % (e,)
+    return text
